@@ -55,12 +55,12 @@ theorem C18_layers_step_reject_unchanged {s s' : State} {op : Op} {e : Err}
   | cellGet2 l c => simp only [step, Prod.mk.injEq] at h; exact h.1.symm
   | setCells l w cond =>
     cases w with
-    | raw v => simp only [step] at h; unfold setCells at h; reject_branches
-    | py x => simp only [step] at h; unfold setCellsV setCells at h; reject_branches
+    | raw v => simp only [step] at h; unfold vecGuard setCells at h; reject_branches
+    | py x => simp only [step] at h; unfold vecGuard setCellsV setCells at h; reject_branches
   | setFrom l hd cond => simp only [step] at h; unfold setFrom at h; reject_branches
-  | modifyCells l f cond => simp only [step] at h; unfold modifyCells at h; reject_branches
-  | modifyT l f cond rd => simp only [step] at h; unfold modifyCellsT at h; reject_branches
-  | modifyU l op x cond => simp only [step] at h; unfold modifyU modifyCellsT at h; reject_branches
+  | modifyCells l vec f cond => simp only [step] at h; unfold vecGuard modifyCells at h; reject_branches
+  | modifyT l f cond rd => simp only [step] at h; unfold vecGuard modifyCellsT at h; reject_branches
+  | modifyU l vec op x cond => simp only [step] at h; unfold vecGuard modifyU modifyCellsT at h; reject_branches
   | modifyCell l c f => simp only [step] at h; unfold modifyCell at h; reject_branches
   | modifyCellU l c op x => simp only [step] at h; unfold modifyCellU modifyCell at h; reject_branches
   | fromData n hd => simp only [step] at h; unfold fromData at h; reject_branches
